@@ -22,7 +22,8 @@ PID = "C13"
 LEVEL = "fault_enumeration"
 TECHNIQUE = ("fault enumeration over the logged socket call sites of 5 scenarios (every single placement of 7 fault kinds; all "
              "pairs in the thorough tier) in the scheduled world with real worker and I/O threads, plus sampled schedules; "
-             "containment / once-only teardown / bystander-unchanged oracle")
+             "containment / once-only teardown / bystander-unchanged oracle; enumerated 'client vanishes in mid-response, clock passes "
+             "channel_timeout' histories under the simulated clock")
 RULE = ("case = (scenario, fault plan {call site -> fault} on the victim connection or the listening socket, schedule); call "
         "sites come from the fault-free run's call log; non-trivial = the planned fault was actually reached; distinct by case hash")
 ASSUMPTIONS = ["errno values limited to the listed set; send() is atomic in the kernel; level-triggered readiness",
@@ -163,7 +164,37 @@ def run_case_full(case, source=None, record=False):
     return fails, reached, labels, r.trace, sched
 
 
+def run_vanish(case):
+    """a client that vanishes without a reset (stops reading, sends nothing more) while a response is pending, then the
+    simulated clock passes channel_timeout / cleanup_interval: judged with the single-thread clock world of C18 - the loop must
+    survive the clean-up pass, the listener must go on accepting and other connections must be served"""
+    from . import c18
+    h = {"cfg": case.get("cfg") or {}, "capacity": case.get("capacity"), "ops": case.get("ops"), "nlisten": case.get("nlisten", 1)}
+    fs, _nt, labels = c18.run_history(h)
+    out = []
+    for f in fs:
+        tail = f["sig"].split("/", 1)[1]
+        if tail.startswith(("thread-died", "handle-error", "not-accepting-below-limit")):
+            out.append({"sig": "C13/vanish/" + tail, "detail": "client vanished in mid-response, clock advanced: " + f["detail"]})
+    reached = "clock-past-timeout" in labels
+    return out, reached, {"vanish", "vanish-clock-past-timeout" if reached else "vanish-short"}, None, None
+
+
+def vanish_cases():
+    for cap in (20, 60, None):
+        for nreq in (1, 2):
+            for pre in ([["stalls", 0]], [], [["stalls", 0], ["stalls", 1]]):
+                for clocks in ([3], [1, 1, 1, 3], [3, 3], [0.5, 3, 30], [40]):
+                    for to in (2, 120):
+                        ops = [["connect", 0], ["connect", 0]] + pre + [["send", 0, False]] * nreq + [["clock", c] for c in clocks]
+                        ops += [["connect", 0], ["send", 2, False], ["send", 1, False], ["clock", 1]]
+                        yield {"vanish": True, "cfg": {"channel_timeout": to, "cleanup_interval": 1 if to == 2 else 30, "connection_limit": 100},
+                               "capacity": cap, "ops": ops}
+
+
 def run_case(case):
+    if case.get("vanish"):
+        return run_vanish(case)[0]
     return run_case_full(case)[0]
 
 
@@ -194,7 +225,7 @@ def single_placements(name):
 
 
 def jobs(tier, seed):
-    js = []
+    js = [{"kind": "vanish"}]
     for name in SCENARIOS:
         js.append({"kind": "single", "scenario": name})
         if tier == "thorough":
@@ -234,7 +265,14 @@ def run_job(job, col):
         col.record(case, fs, nontrivial=nt, labels=labels)
 
     k = job["kind"]
-    if k == "single":
+    if k == "vanish":
+        for case in vanish_cases():
+            try:
+                fs, nt, labels, _t, _s = run_vanish(case)
+            except C.CaseInvalid:
+                continue
+            col.record(case, fs, nontrivial=nt, labels=labels)
+    elif k == "single":
         one({"scenario": job["scenario"]})
         for case in single_placements(job["scenario"]):
             one(case)
